@@ -107,6 +107,7 @@ type observation struct {
 	extra     int  // requests after the successful PLAY (keep-alive)
 	extraBad  bool
 	panicked  bool
+	secondBad bool // a second request while the pull is live did not get the same stream
 	idleTask  int // idle-close tasks posted for the pulled stream (expected: 1 unless the route says keepalive)
 	notes     []string
 }
@@ -287,6 +288,21 @@ func runScenario(s *scenario, path string) *observation {
 	}
 	// success: the stream must appear under the requested path
 	o.reg = waitFor(settle, func() bool { return media.Get(path) == stream })
+	// a second request for the path while the pull is live is served by the same stream, without a second pull
+	if o.reg {
+		again := media.GetOrCreate(" " + path + " ")
+		select {
+		case extra := <-cam.accepts:
+			o.notes = append(o.notes, "second request dialled the camera again")
+			o.secondBad = true
+			extra.kill(false)
+		default:
+		}
+		if again != stream {
+			o.notes = append(o.notes, "second request got another stream")
+			o.secondBad = true
+		}
+	}
 	var task *media.VerifIdleTask
 	for _, t := range media.VerifIdleTasks() {
 		if t.Stream == stream {
@@ -703,7 +719,7 @@ func implKeyOf(o *observation) string {
 
 // failing: does the driver's answer disagree with the observation, or does the spec reject it?
 func failing(o *observation, m map[string]string) bool {
-	return o.idleTask > 1 || implKeyOf(o) != m["model"] || m["verdict"] != "ok" || o.extraBad || strings.HasPrefix(o.out, "status-")
+	return o.idleTask > 1 || o.secondBad || implKeyOf(o) != m["model"] || m["verdict"] != "ok" || o.extraBad || strings.HasPrefix(o.out, "status-")
 }
 
 // runBatches runs the scenarios idx (indices into scs) in parallel batches; batch-level leak check
@@ -886,6 +902,9 @@ func runC20(c *Ctx) {
 		}
 		if o.extra > 0 {
 			c.Count("keepalive-seen")
+		}
+		if o.secondBad {
+			c.Find(Finding{Kind: "oracle", Class: "second-request-not-served-by-live-pull", Case: caseLine, Impl: o.String(), Spec: "the stream already pulled for the path", Detail: strings.Join(o.notes, "; ")})
 		}
 		if o.out == "stream" {
 			want := 1
